@@ -30,6 +30,16 @@ def main(p):
     print("no failing input was found; the obligation was proved for the baseline text of this function and is no longer provable.")
     print("solver output / detail:"); print(p.get('detail'))
     return 2
+  if p.get('kind')=='native-args':
+    from .driver import load_registry
+    from . import runtime
+    reg=load_registry(repo); c=reg.contracts[p['contract']]
+    args=p['args']; print("inputs     : "+', '.join(f"{k}={v!r}" for k,v in args.items()))
+    out=runtime.check_call(c,args,repo)
+    print(f"case       : {out.case}"); print(f"outcome    : {getattr(out,'result',None) or getattr(out,'exception',None)}")
+    if out.skipped or out.ok: print("contract holds on this input: NOT reproduced"); return 0
+    for f in out.failed: print("FAILED     : "+f)
+    return 1
   if p.get('kind')=='custom':
     from importlib import import_module
     m=import_module(p['module']); return getattr(m,p['entry'])(p,repo)
